@@ -190,6 +190,19 @@ def run(ctx: core.Ctx) -> int:
                 bad.append(txt)
     ctx.oblige("FIT", where, "pre-conditions refuse only None", not bad, file=F, func=q("fit"), construct="preconditions:" + ";".join(bad),
                msg=f"fit refuses parameters by truthiness / other tests ({bad}): an empty noise map of a model without controls is a valid parameter")
+    # fit -> score -> transform reads the filter's records after every update: they are refreshed on every sensor_model call (else a rejected
+    # first reading makes fit escape with KeyError instead of the library's minimisation error)
+    ctx.rule("RECORDS", "sensor_model writes both records unconditionally before any return (shared with C16)")
+    scr = scenarios.PyEKF(ctx, prog, run=("sensor_model",))
+    evs = [e for e in scr.it.events if e["func"] == "ExtendedKalmanFilter.sensor_model"]
+    first_ret = min((e["seq"] for e in evs if e["kind"] == "return"), default=None)
+    for nm in ("innovations", "sensor_prediction_uncertainty"):
+        st = [e for e in evs if e["kind"] == "store" and f"self.{nm}[" in e.get("target", "")]
+        okr = bool(st) and all(not e["path"] for e in st) and first_ret is not None and all(e["seq"] < first_ret for e in st)
+        ctx.oblige("RECORDS", f"{F}:ExtendedKalmanFilter.sensor_model", f"self.{nm}[key] stored unconditionally before the first return", okr, file=F,
+                   func="ExtendedKalmanFilter.sensor_model", construct=f"record {nm}",
+                   msg=f"sensor_model does not refresh self.{nm}[sensor_key] on every call: when a sensor's first reading is rejected, transform (and so "
+                       f"score and fit) fails with KeyError instead of MinimizationFailure")
     return core.finish(ctx, explanation="table agreement, branch-structure and def-use rules on SklearnEKFAdapter; E2 iteration inventory for the "
                                         "scoring-vector writer/reader", **META)
 
